@@ -25,6 +25,7 @@ class Ctx:
         self.aliases = []
         self.alias_defs = []
         self.own_labels = set()
+        self.in_repeat = 0
         self.n = 0
 
     def fresh(self, prefix):
@@ -75,7 +76,7 @@ def addr_expr(ctx, rnd, labels):
     lab = rnd.choice(labels)
     r = rnd.random()
     own = [l for l in labels if l in ctx.own_labels]
-    if ctx.opts.get("aliases", True) and own and rnd.random() < 0.2:
+    if ctx.opts.get("aliases", True) and own and not ctx.in_repeat and rnd.random() < 0.2:
         # an alias: a constant whose value is an address (label + k, possibly through a chain), defined anywhere in the file,
         # then used with coefficients other than +1 whose net effect still fits 16 bits
         if ctx.aliases and rnd.random() < 0.6:
@@ -206,10 +207,12 @@ def gen_stmt(ctx, rnd, labels, near, depth=0):
         e, v = small_count(ctx, rnd, 4)
         body = []
         ctx.maybe_odd = True          # a body may start at either parity on later copies: always re-align inside
+        ctx.in_repeat += 1            # (aliases may point at labels defined later: not inside bodies, see below)
         for _ in range(rnd.randrange(1, 4)):
             # a lazily counted '.repeat' whose body mentions a label defined after it is the listed finding
             # 'definitional-cycle' (content and size are not separated); bodies only mention labels defined before
             body.extend(gen_stmt(ctx, rnd, [l for l in labels if l in ctx.defined_so_far], [], depth + 1))
+        ctx.in_repeat -= 1
         out.append(apm.repeat(e, body))
         ctx.maybe_odd = True
     else:
